@@ -85,16 +85,30 @@ class Session:
         raises ServerDied / ProtocolError."""
         import kconfserver.core as ks
 
-        out_bytes = io.BytesIO()
-        out = io.TextIOWrapper(out_bytes, encoding=self.stdout_encoding, errors="strict", newline="\n", write_through=True)
+        class PipeSink(io.RawIOBase):
+            """The write end of the stdout pipe: only what the server has *flushed* arrives here."""
+
+            def __init__(self_inner):
+                self_inner.data = bytearray()
+
+            def writable(self_inner):
+                return True
+
+            def write(self_inner, b):
+                self_inner.data += bytes(b)
+                return len(b)
+
+        out_sink = PipeSink()
+        # like sys.stdout on a pipe: block-buffered, not line-buffered - a reply the server does not flush is not sent
+        out = io.TextIOWrapper(io.BufferedWriter(out_sink, buffer_size=8192), encoding=self.stdout_encoding, errors="strict",
+                               newline="\n", line_buffering=False, write_through=False)
         err_bytes = io.BytesIO()
         err = io.TextIOWrapper(err_bytes, encoding="utf-8", errors="backslashreplace", newline="\n", write_through=True)
         sess = self
         state = {"pos": 0, "i": -1, "last": None}
 
         def consume():
-            out.flush()
-            raw = out_bytes.getvalue()[state["pos"]:]
+            raw = bytes(out_sink.data[state["pos"]:])
             state["pos"] += len(raw)
             try:
                 text = raw.decode(self.stdout_encoding)
@@ -180,7 +194,7 @@ class Session:
                 _log.set_info_stream(old_info)
             _log.set_verbosity(old_verbosity if old_verbosity is not None else "silent")
             self.stderr_text = err_bytes.getvalue().decode("utf-8", "replace")
-            self.stdout_text = out_bytes.getvalue().decode(self.stdout_encoding, "replace")
+            self.stdout_text = bytes(out_sink.data).decode(self.stdout_encoding, "replace")
             simproc.scrub_env()
 
 
